@@ -226,6 +226,13 @@ class Topic(Entity):
             self._messages_delivered += 1
             self._delivery_latencies.append(self._delivery_latency)
 
+        # The delivery events are handed to the engine when this generator
+        # returns, so they must carry the time at which the fan-out finished:
+        # an event stamped with the publish time is in the past by then and
+        # the engine drops it.
+        if self._clock is not None:
+            now = self._clock.now
+        for subscription in active_subscribers:
             delivery_event = Event(
                 time=now,
                 event_type="topic_message",
